@@ -1268,7 +1268,10 @@ def _parse_source_for_lambda(
             f"Unable to use the source of {ast_source}: it is a wrapper around another function."
         )
 
-    if "<lambda>.<locals>.<lambda>" in getattr(ast_source, "__qualname__", ""):
+    # (`<lambda>.<locals>.<lambda>`, or with a comprehension in between:
+    # `<lambda>.<locals>.<genexpr>.<lambda>`)
+    made_inside = getattr(ast_source, "__qualname__", "").split(".")[:-1]
+    if getattr(ast_source, "__name__", "") == "<lambda>" and "<lambda>" in made_inside:
         # Only the lambdas written directly on a line are looked at below - not one that
         # another lambda on the line creates.
         raise ValueError(
